@@ -203,6 +203,18 @@ pub fn parse_args() -> Args {
             _ => extra.push(a),
         }
     }
+    // a replay runs at the tier the violation was found at
+    if let Some(p) = &replay {
+        if let Ok(txt) = std::fs::read_to_string(p) {
+            if let Ok(v) = serde_json::from_str::<Value>(&txt) {
+                match v["tier"].as_str() {
+                    Some("thorough") => tier = Tier::Thorough,
+                    Some("quick") => tier = Tier::Quick,
+                    _ => {}
+                }
+            }
+        }
+    }
     Args { tier, replay, seed, worker, extra }
 }
 
